@@ -53,14 +53,15 @@ theorem numConv_exact (lit : Bytes) (h : Spec.pNumber lit = some (lit, [])) :
       | _ => False :=
   numConv_exact_at lit lit [] h
 
-/-- **Numeric clause (C02).** Every complete RFC 8259 number literal comes back as an int64 equal to it,
-or as a float64 / `json.Number` / `gen.Big` whose decimal text denotes the same number. -/
-theorem numConv_value (lit : Bytes) (h : Spec.pNumber lit = some (lit, [])) :
+/-- **Numeric clause (C02)** at a number leaf: `lit` is the literal the specification reads at the head
+of `bs`. It comes back as an int64 equal to it, or as a float64 / `json.Number` / `gen.Big` whose decimal
+text denotes the same number. -/
+theorem numConv_value_at (bs lit rest : Bytes) (h : Spec.pNumber bs = some (lit, rest)) :
     match numConv lit with
     | .int v => SameNumberO (decVal lit) (some (v, 0))
     | .flt t | .big t => SameNumberO (decVal lit) (decVal t)
     | _ => False := by
-  obtain ⟨m, e, hd, hr⟩ := numConv_exact lit h
+  obtain ⟨m, e, hd, hr⟩ := numConv_exact_at bs lit rest h
   cases hc : numConv lit with
   | int v =>
     rw [hc] at hr
@@ -76,16 +77,72 @@ theorem numConv_value (lit : Bytes) (h : Spec.pNumber lit = some (lit, [])) :
   | arr _ => rw [hc] at hr; exact hr
   | obj _ => rw [hc] at hr; exact hr
 
-/-- the same at a number leaf inside a document: `lit` followed by `rest` -/
-theorem numConv_value_at (bs lit rest : Bytes) (h : Spec.pNumber bs = some (lit, rest)) :
+/-- **Numeric clause (C02).** Every complete RFC 8259 number literal comes back as an int64 equal to it,
+or as a float64 / `json.Number` / `gen.Big` whose decimal text denotes the same number. -/
+theorem numConv_value (lit : Bytes) (h : Spec.pNumber lit = some (lit, [])) :
     match numConv lit with
     | .int v => SameNumberO (decVal lit) (some (v, 0))
     | .flt t | .big t => SameNumberO (decVal lit) (decVal t)
-    | _ => False := by
-  obtain ⟨p, hw, hl, rfl⟩ := pNumber_parts bs lit rest h
-  apply numConv_value
-  -- the literal read at the head of `bs` is itself a complete literal: derive it from `numConv_exact_at`
-  -- is not needed — `numConv_value` only uses the anatomy, so restate through it
-  sorry
+    | _ => False :=
+  numConv_value_at lit lit [] h
+
+/-! ## Instances: the hypothesis is met by literals of every shape, on both sides of every threshold -/
+
+private abbrev asc (s : String) : Bytes := s.toUTF8.toList
+
+private def complete (s : String) : Bool := Spec.pNumber (asc s) == some (asc s, [])
+
+private def isFlt (s t : String) : Bool := match numConv (asc s) with | .flt x => x == asc t | _ => false
+private def isBig (s t : String) : Bool := match numConv (asc s) with | .big x => x == asc t | _ => false
+private def isInt (s : String) (v : Int) : Bool := match numConv (asc s) with | .int x => x == v | _ => false
+
+/-- fraction with leading and trailing zero, `e+07` with sign and leading zero: float64 from the text
+`-12.0340e7`, which denotes −120340 · 10^3 as the literal does -/
+example : complete "-12.0340e+07" = true ∧ isFlt "-12.0340e+07" "-12.0340e7" = true ∧
+    decVal (asc "-12.0340e+07") = some (-120340, 3) ∧ decVal (asc "-12.0340e7") = some (-120340, 3) := by
+  decide +kernel
+
+example : complete "0.5" = true ∧ isFlt "0.5" "0.5" = true := by decide +kernel
+
+/-- upper-case `E`, exponent beyond float64 but below the text threshold 1022: the text `1e400` -/
+example : complete "1E400" = true ∧ isFlt "1E400" "1e400" = true ∧
+    SameNumberO (decVal (asc "1E400")) (decVal (asc "1e400")) := by decide +kernel
+
+/-- integer part beyond int64: switched to text in the middle of the digits, all 30 digits kept -/
+example : complete "123456789012345678901234567890" = true ∧
+    isBig "123456789012345678901234567890" "123456789012345678901234567890" = true := by decide +kernel
+
+/-- 21 fraction digits, 20 leading zeros: switched to text after 18 fraction digits, every zero kept -/
+example : complete "0.000000000000000000001" = true ∧
+    isBig "0.000000000000000000001" "0.000000000000000000001" = true ∧
+    decVal (asc "0.000000000000000000001") = some (1, -21) := by decide +kernel
+
+/-- exponent thresholds: 1022 is still a float text, 1023 switches to text form; leading zeros of the
+exponent are dropped, its value is not -/
+example : isFlt "1e1022" "1e1022" = true ∧ isBig "1e1023" "1e1023" = true ∧ isBig "1e00001023" "1e1023" = true ∧
+    isBig "2E-10234" "2e-10234" = true := by decide +kernel
+
+/-- integer results: only without fraction and with exponent value 0; the int64 bounds -/
+example : isInt "1e0" 1 = true ∧ isInt "-0" 0 = true ∧ isInt "12E-000" 12 = true ∧
+    isInt "9223372036854775807" 9223372036854775807 = true ∧ isInt "-9223372036854775807" (-9223372036854775807) = true ∧
+    isBig "9223372036854775808" "9223372036854775808" = true ∧ isBig "-9223372036854775808" "-9223372036854775808" = true ∧
+    isFlt "1.0" "1.0" = true ∧ isFlt "-0.0e-0" "-0.0" = true := by decide +kernel
+
+/-- switch to text in the integer part, then fraction, `E`, `+` and exponent passed through verbatim;
+switch in the fraction part with an exponent following -/
+example : isBig "12345678901234567890.5E+3" "12345678901234567890.5E+3" = true ∧
+    isBig "0.0000000000000000001e5" "0.0000000000000000001e5" = true ∧
+    isFlt "1.000000000000000000" "1.000000000000000000" = true ∧
+    isBig "1.0000000000000000001" "1.0000000000000000001" = true := by decide +kernel
+
+/-- `decVal` rejects what is not a decimal text, so `decVal t = some _` in the theorems says the result
+text is well formed -/
+example : decVal (asc "1.") = none ∧ decVal (asc "1e") = none ∧ decVal (asc "-") = none ∧ decVal (asc "") = none ∧
+    decVal (asc "1.5x") = none ∧ decVal (asc ".5") = none ∧ decVal (asc "1e+") = none ∧ decVal (asc "1 ") = none := by
+  decide +kernel
+
+/-- `SameNumber` separates numbers -/
+example : ¬ SameNumber (15, -1) (15, 0) ∧ ¬ SameNumber (15, -1) (-15, -1) ∧ ¬ SameNumber (1, 400) (1, 401) ∧
+    SameNumber (15, -1) (1500, -3) := by decide
 
 end OjgVerif.C02
